@@ -1,5 +1,6 @@
 import OntVerif.Model.VbftProto
 import OntVerif.Model.VbftImpl
+import OntVerif.Gen.SealGates
 import OntVerif.Props.C28
 import OntVerif.Props.C31
 import Mathlib.Data.Fintype.Card
@@ -184,6 +185,48 @@ theorem C34_obl_commit_once (c c' : Cand) (p : Nat) (fe : Bool) (h : setProposal
   unfold setProposalCommitted at h
   cases h1 : c.committedP <;> cases h2 : c.committedEmptyP <;> simp [h1, h2] at h
   cases fe <;> simp at h <;> subst h <;> simp
+
+/-! ### The seal gates of `service.go` (structural facts, regenerated by factgen on every run: `Gen/SealGates.lean`)
+
+Every call of a seal entry point in `consensus/vbft` (`setCommitDone`, `makeSealed`, `sealProposal`, `sealBlock`,
+`fastForwardBlock`, `setBlockSealed`, `chainStore.AddBlock`) with the decision function whose `done` result guards it. The
+refinement obligation that `C34_proto_safe` needs from the event loop — *seal only on a commit verdict, for the block number the
+verdict is about* — is checked on these facts; timers and scheduling are not modelled. -/
+section gates
+open OntVerif.Gen.SealGates
+
+/-- what a seal site must look like -/
+def siteOk (s : Site) : Bool :=
+  if s.callee == "setCommitDone" then
+    -- `if …, done := pool.commitDone(b, chainCfg.C, chainCfg.N); done { pool.setCommitDone(b) …`
+    s.guard == "commitDone" && s.guardArgs == s.args ++ ["chainCfg.C", "chainCfg.N"] && s.args.length == 1
+  else if s.callee == "makeSealed" then
+    -- `if proposer, forEmpty, done := pool.commitDone(b, C, N); done { … proposal := findBlockProposal(b, proposer, forEmpty) … makeSealed(proposal, forEmpty)`
+    match s.guardArgs, s.guardResults with
+    | [b, "chainCfg.C", "chainCfg.N"], [r0, r1, _] =>
+      s.guard == "commitDone" && s.args == ["proposal", r1] &&
+      s.proposalFrom == "self.findBlockProposal(" ++ b ++ ", " ++ r0 ++ ", " ++ r1 ++ ")"
+    | _, _ => false
+  else if s.callee == "sealBlock" then
+    -- fast-forward over buffered commit messages: the commit-message quorum; or a relay inside sealProposal / fastForwardBlock
+    (s.func == "actionLoop" && s.guard == "getCommitConsensus" && s.guardArgs == ["commitMsgs", "int(chainCfg.C)", "int(chainCfg.N)"])
+    || (s.guard == "relay" && (s.func == "sealProposal" || s.func == "fastForwardBlock"))
+  else if s.callee == "sealProposal" then s.guard == "action:SealBlock"      -- consumer of the action made by makeSealed
+  else if s.callee == "setBlockSealed" then s.guard == "relay" && s.func == "sealBlock"
+  else if s.callee == "AddBlock" then s.guard == "relay" && s.func == "setBlockSealed"
+  else if s.callee == "fastForwardBlock" then s.guard == "sync" && s.file == "consensus/vbft/node_sync.go"  -- synced blocks: C32's matter
+  else false
+
+/-- **every seal site of the shipped event loop is guarded by a commit verdict on the same block number** (or relays one /
+belongs to the syncer). A seal on `endorseDone`, on another block number, in an `else` branch, or an unguarded new seal
+site makes this fail. -/
+theorem C34_seal_sites_guarded : sites.all siteOk = true := by decide
+
+/-- the three decision sites exist and use `commitDone` (these names select the gate the model and the harness evaluate) -/
+theorem C34_decision_gates : msgCommitGate = "commitDone" ∧ commitTimeoutGate = "commitDone" ∧ newRoundGate = "commitDone" ∧
+    (sites.filter (fun s => s.callee == "setCommitDone")).length = 3 ∧
+    (sites.filter (fun s => s.callee == "makeSealed")).length = 2 := by decide
+end gates
 
 /-- peers `i < N` whose *commit message* for `p` with a genuine committer signature is stored in the pool -/
 def commitVotes (N : Nat) (c : Cand) (p : Nat) : Nat :=
